@@ -31,7 +31,7 @@ for q in u.QUANTITIES:
 probe = {}
 for a in u.QUANTITIES:
     for b in u.QUANTITIES:
-        x, y = a(3.0), b(2.0)
+        x, y = a(5.0), b(3.0)
         for op, f in (("mul", lambda p, q_: p * q_), ("div", lambda p, q_: p / q_)):
             try:
                 r = f(x, y)
@@ -232,7 +232,7 @@ def load(reg):
                 bad.append("%s raised %s" % (key, r[1:]))
                 continue
             tname, val, sig = r
-            expv = 6.0 if op == "mul" else 1.5
+            expv = 5.0 * 3.0 if op == "mul" else 5.0 / 3.0     # operands a(5.0), b(3.0): a / b differs from a * (1 / b) in the last bit
             exps = vec_add(cl[a]["sisig"], cl[b]["sisig"], 1 if op == "mul" else -1)
             tab = cl[a]["mul" if op == "mul" else "div"].get(b)
             if abs(val - expv) > 1e-12 or sig != exps:
